@@ -303,12 +303,13 @@ theorem query_some_mem {α : Type} (key : α → Id) (s : List α) (q : Query) (
 
 theorem insertMethod_inv (d : Doc) (m : Method) (s : Scope) (hi : Inv d) (hf : m.id.frag ≠ none) :
     Inv (insertMethod d m s).1 := by
-  unfold insertMethod
-  cases hg : insertRefused d m s with
+  unfold insertMethod insertMethodG
+  cases hg : insertRefusedG Gen.C04.insertChecksResolve Gen.C04.insertChecksService
+      Gen.C04.insertChecksEmbeddedIds Gen.C04.insertChecksRelationshipIds d m s with
   | true => simpa using hi
   | false =>
     simp only [Bool.false_eq_true, ↓reduceIte]
-    unfold insertRefused at hg
+    unfold insertRefusedG at hg
     simp only [Gen.C04.insertChecksResolve, Gen.C04.insertChecksService, Gen.C04.insertChecksEmbeddedIds,
       Gen.C04.insertChecksRelationshipIds, Bool.true_and, Bool.or_eq_false_iff] at hg
     obtain ⟨⟨⟨_, g2⟩, g3⟩, g4⟩ := hg
@@ -481,7 +482,7 @@ theorem run_inv (ops : List Op) : ∀ d : Doc, (∀ op ∈ ops, op.WF) → Inv d
 theorem step_refused_unchanged (d : Doc) (op : Op) (h : (step d op).2.isErr = true) : (step d op).1 = d := by
   cases op with
   | insertMethod m s =>
-    simp only [step, insertMethod] at h ⊢
+    simp only [step, insertMethod, insertMethodG] at h ⊢
     split
     · rfl
     · rename_i hg; rw [if_neg hg] at h; cases s <;> cases h
